@@ -2288,6 +2288,16 @@ class ProgramHooks(Hooks):
         elif name in mod.imports:
             m, n = mod.imports[name]
             rel = self.prog._modname.get(m)
+            if rel is None and m:
+                # a repo module that was not listed: load it on demand (constants / helpers may live anywhere)
+                for cand in (m.replace(".", "/") + ".py", m.replace(".", "/") + "/__init__.py"):
+                    if self.prog.tree.exists(cand):
+                        try:
+                            self.prog.modules[cand] = pf.Module(self.prog.tree, cand)
+                            self.prog._modname[m] = rel = cand
+                        except Exception:
+                            rel = None
+                        break
             if rel is not None and n is not None:
                 v = self._lookup_global(eng, self.prog.modules[rel], n)
         if v is not None:
